@@ -96,10 +96,10 @@ theorem map_toNat_ofNat (vs : List Int) (h : ∀ v ∈ vs, 0 ≤ v ∧ v ≤ 255
 
 /-! ### the well-formedness invariant and the doubt invariant -/
 
-/-- well-formedness of a client/device pair: `1 ≤ n ≤ 255`, every vector has `n` entries, requested
-    dividers are 8-bit, and the client's copy of the device description equals its `…Now` view -/
+/-- well-formedness of a client/device pair: `n ≤ 255` (zero channels allowed), every vector has `n`
+    entries, requested dividers are 8-bit, and the client's copy of the device description equals its
+    `…Now` view -/
 structure Inv (c : Client) (d : Device) : Prop where
-  n1 : 1 ≤ c.n
   n255 : c.n ≤ 255
   lEnNow : c.enNow.length = c.n
   lEnNew : c.enNew.length = c.n
@@ -145,7 +145,7 @@ theorem divRequest_vec (c : Client) (h : ¬ ((∃ k, diffIdx c.divNew c.divNow =
 
 /-- the enable frame the client builds is well formed (id 6) and a device that applies it ends up
     with an `n`-vector, which is the requested one unless the client's view was in doubt -/
-theorem enFrame_spec {c : Client} {d : Device} (hI : Inv c d) :
+theorem enFrame_spec {c : Client} {d : Device} (hI : Inv c d) (hn : c.n ≠ 0) :
     ∃ f en', frameEnable (enRequest c) c.n = .ok f ∧ f.getD 3 0 = 6 ∧
       devApplyEn d f = { d with en := en' } ∧ en'.length = c.n ∧ (DoubtEn c d → en' = c.enNew) := by
   by_cases hs : (∃ k, diffIdx c.enNew c.enNow = [k]) ∧ c.enResync = false
@@ -159,13 +159,13 @@ theorem enFrame_spec {c : Client} {d : Device} (hI : Inv c d) :
     · unfold devApplyEn; rw [payloadOf_wire, hI.lDevEn, hp2]
     · rw [List.length_set, hI.lDevEn]
     · intro hD; rw [hD hr]; exact hd.2
-  · obtain ⟨p, hp1, hp2⟩ := C05.en_forms_agree c.n c.enNew d.en hI.lEnNew hI.n1 hI.n255
+  · obtain ⟨p, hp1, hp2⟩ := C05.en_forms_agree c.n c.enNew d.en hI.lEnNew (Nat.pos_of_ne_zero hn) hI.n255
     refine ⟨wire 6 p, c.enNew, ?_, ?_, ?_, hI.lEnNew, fun _ => rfl⟩
     · rw [enRequest_vec c hs]; exact hp1
     · rw [wire_id]; rfl
     · unfold devApplyEn; rw [payloadOf_wire, hI.lDevEn, hp2]
 
-theorem divFrame_spec {c : Client} {d : Device} (hI : Inv c d) :
+theorem divFrame_spec {c : Client} {d : Device} (hI : Inv c d) (hn : c.n ≠ 0) :
     ∃ f dv', frameDiv (divRequest c) c.n = .ok f ∧ f.getD 3 0 = 7 ∧
       devApplyDiv d f = { d with div := dv' } ∧ dv'.length = c.n ∧ (DoubtDiv c d → dv' = c.divNew) := by
   by_cases hs : (∃ k, diffIdx c.divNew c.divNow = [k]) ∧ c.divResync = false
@@ -188,7 +188,7 @@ theorem divFrame_spec {c : Client} {d : Device} (hI : Inv c d) :
     · intro hD; rw [hD hr]; exact hd.2
   · have hm := map_toNat_ofNat c.divNew hI.rDivNew
     obtain ⟨p, hp1, hp2⟩ := C05.div_forms_agree c.n (c.divNew.map Int.toNat) d.div
-      (by rw [List.length_map]; exact hI.lDivNew) hI.n1 hI.n255
+      (by rw [List.length_map]; exact hI.lDivNew) (Nat.pos_of_ne_zero hn) hI.n255
       (by
         intro v hv
         obtain ⟨a, ha, rfl⟩ := List.mem_map.mp hv
@@ -332,40 +332,77 @@ theorem writeDiv_failed (c : Client) (d : Device) (o : Outcome) (ha : c.ackSuppo
   | error e => rw [writeDiv_err c d o e h]; exact ⟨rfl, rfl⟩
   | ok f => rw [writeDiv_ok c d o f h, ackSeen_fail c o _ ha hf]; exact ⟨rfl, rfl⟩
 
-/-- under `Inv` the enable request is always built and emitted; the device (if it applies it) gets
-    an `n`-vector, the requested one unless the view was in doubt -/
-theorem writeEnable_char {c : Client} {d : Device} (hI : Inv c d) (o : Outcome) :
+/-! ### a device without channels (`n = 0`): every vector is empty and no request can be built -/
+
+theorem Inv.nil {c : Client} {d : Device} (h : Inv c d) (h0 : c.n = 0) :
+    c.enNow = [] ∧ c.enNew = [] ∧ c.divNow = [] ∧ c.divNew = [] ∧ d.en = [] ∧ d.div = [] ∧
+    c.copyEn = [] ∧ c.copyDiv = [] := by
+  have e1 : c.enNow = [] := List.eq_nil_of_length_eq_zero (h.lEnNow.trans h0)
+  have e2 : c.divNow = [] := List.eq_nil_of_length_eq_zero (h.lDivNow.trans h0)
+  exact ⟨e1, List.eq_nil_of_length_eq_zero (h.lEnNew.trans h0), e2,
+    List.eq_nil_of_length_eq_zero (h.lDivNew.trans h0), List.eq_nil_of_length_eq_zero (h.lDevEn.trans h0),
+    List.eq_nil_of_length_eq_zero (h.lDevDiv.trans h0), h.cpEn.trans e1, h.cpDiv.trans e2⟩
+
+/-- the request builders cannot express an empty vector (the `IndexError` of F18) -/
+theorem frameEnable_zero {c : Client} {d : Device} (hI : Inv c d) (h0 : c.n = 0) :
+    frameEnable (enRequest c) c.n = .error .indexError := by
+  obtain ⟨e1, e2, -⟩ := hI.nil h0
+  have hr : enRequest c = .vec [] := by
+    unfold enRequest; rw [e1, e2, diffIdx_self]
+  rw [hr, h0]; rfl
+
+theorem frameDiv_zero {c : Client} {d : Device} (hI : Inv c d) (h0 : c.n = 0) :
+    frameDiv (divRequest c) c.n = .error .indexError := by
+  obtain ⟨-, -, e1, e2, -⟩ := hI.nil h0
+  have hr : divRequest c = .vec [] := by
+    unfold divRequest; rw [e1, e2, diffIdx_self]
+  rw [hr, h0]; rfl
+
+/-- … so a request attempted on a device without channels fails locally and changes nothing -/
+theorem writeEnable_zero {c : Client} {d : Device} (hI : Inv c d) (h0 : c.n = 0) (o : Outcome) :
+    writeEnable c d o = (c, d, { err := some .indexError }) :=
+  writeEnable_err c d o _ (frameEnable_zero hI h0)
+
+theorem writeDiv_zero {c : Client} {d : Device} (hI : Inv c d) (h0 : c.n = 0) (o : Outcome) :
+    writeDiv c d o = (c, d, { err := some .indexError }) :=
+  writeDiv_err c d o _ (frameDiv_zero hI h0)
+
+/-- under `Inv`, with at least one channel, the enable request is always built and emitted; the device
+    (if it applies it) gets an `n`-vector, the requested one unless the view was in doubt -/
+theorem writeEnable_char {c : Client} {d : Device} (hI : Inv c d) (hn : c.n ≠ 0) (o : Outcome) :
     ∃ f en', f.getD 3 0 = 6 ∧ en'.length = c.n ∧ (DoubtEn c d → en' = c.enNew) ∧
       writeEnable c d o = (if (ackSeen c o Gen.Comm.ackTimeoutEnable).1 then enAck c else enFail c,
         if applies o then { d with en := en' } else d, { sent := [f], time := (ackSeen c o Gen.Comm.ackTimeoutEnable).2 }) := by
-  obtain ⟨f, en', hf, h6, hap, hl, hD⟩ := enFrame_spec hI
+  obtain ⟨f, en', hf, h6, hap, hl, hD⟩ := enFrame_spec hI hn
   exact ⟨f, en', h6, hl, hD, by rw [writeEnable_ok c d o f hf, hap]⟩
 
-theorem writeDiv_char {c : Client} {d : Device} (hI : Inv c d) (o : Outcome) :
+theorem writeDiv_char {c : Client} {d : Device} (hI : Inv c d) (hn : c.n ≠ 0) (o : Outcome) :
     ∃ f dv', f.getD 3 0 = 7 ∧ dv'.length = c.n ∧ (DoubtDiv c d → dv' = c.divNew) ∧
       writeDiv c d o = (if (ackSeen c o Gen.Comm.ackTimeoutDiv).1 then divAck c else divFail c,
         if applies o then { d with div := dv' } else d, { sent := [f], time := (ackSeen c o Gen.Comm.ackTimeoutDiv).2 }) := by
-  obtain ⟨f, dv', hf, h7, hap, hl, hD⟩ := divFrame_spec hI
+  obtain ⟨f, dv', hf, h7, hap, hl, hD⟩ := divFrame_spec hI hn
   exact ⟨f, dv', h7, hl, hD, by rw [writeDiv_ok c d o f hf, hap]⟩
 
 theorem Inv.enAck {c : Client} {d : Device} (h : Inv c d) : Inv (enAck c) d :=
-  ⟨h.n1, h.n255, h.lEnNew, h.lEnNew, h.lDivNow, h.lDivNew, h.lDevEn, h.lDevDiv, h.rDivNew, rfl, h.cpDiv⟩
+  ⟨h.n255, h.lEnNew, h.lEnNew, h.lDivNow, h.lDivNew, h.lDevEn, h.lDevDiv, h.rDivNew, rfl, h.cpDiv⟩
 theorem Inv.enFail {c : Client} {d : Device} (h : Inv c d) : Inv (enFail c) d :=
-  ⟨h.n1, h.n255, h.lEnNow, h.lEnNew, h.lDivNow, h.lDivNew, h.lDevEn, h.lDevDiv, h.rDivNew, h.cpEn, h.cpDiv⟩
+  ⟨h.n255, h.lEnNow, h.lEnNew, h.lDivNow, h.lDivNew, h.lDevEn, h.lDevDiv, h.rDivNew, h.cpEn, h.cpDiv⟩
 theorem Inv.divAck {c : Client} {d : Device} (h : Inv c d) : Inv (divAck c) d :=
-  ⟨h.n1, h.n255, h.lEnNow, h.lEnNew, h.lDivNew, h.lDivNew, h.lDevEn, h.lDevDiv, h.rDivNew, h.cpEn, rfl⟩
+  ⟨h.n255, h.lEnNow, h.lEnNew, h.lDivNew, h.lDivNew, h.lDevEn, h.lDevDiv, h.rDivNew, h.cpEn, rfl⟩
 theorem Inv.divFail {c : Client} {d : Device} (h : Inv c d) : Inv (divFail c) d :=
-  ⟨h.n1, h.n255, h.lEnNow, h.lEnNew, h.lDivNow, h.lDivNew, h.lDevEn, h.lDevDiv, h.rDivNew, h.cpEn, h.cpDiv⟩
+  ⟨h.n255, h.lEnNow, h.lEnNew, h.lDivNow, h.lDivNew, h.lDevEn, h.lDevDiv, h.rDivNew, h.cpEn, h.cpDiv⟩
 theorem Inv.devEn {c : Client} {d : Device} (h : Inv c d) (en' : List Bool) (hl : en'.length = c.n) :
     Inv c { d with en := en' } :=
-  ⟨h.n1, h.n255, h.lEnNow, h.lEnNew, h.lDivNow, h.lDivNew, hl, h.lDevDiv, h.rDivNew, h.cpEn, h.cpDiv⟩
+  ⟨h.n255, h.lEnNow, h.lEnNew, h.lDivNow, h.lDivNew, hl, h.lDevDiv, h.rDivNew, h.cpEn, h.cpDiv⟩
 theorem Inv.devDiv {c : Client} {d : Device} (h : Inv c d) (dv' : List Int) (hl : dv'.length = c.n) :
     Inv c { d with div := dv' } :=
-  ⟨h.n1, h.n255, h.lEnNow, h.lEnNew, h.lDivNow, h.lDivNew, h.lDevEn, hl, h.rDivNew, h.cpEn, h.cpDiv⟩
+  ⟨h.n255, h.lEnNow, h.lEnNew, h.lDivNow, h.lDivNew, h.lDevEn, hl, h.rDivNew, h.cpEn, h.cpDiv⟩
 
 theorem writeEnable_inv {c : Client} {d : Device} (hI : Inv c d) (o : Outcome) :
     Inv (writeEnable c d o).1 (writeEnable c d o).2.1 := by
-  obtain ⟨f, en', -, hl, -, heq⟩ := writeEnable_char hI o
+  by_cases hn : c.n = 0
+  · rw [writeEnable_zero hI hn o]; exact hI
+  obtain ⟨f, en', -, hl, -, heq⟩ := writeEnable_char hI hn o
   rw [heq]; dsimp only
   split <;> split
   · exact (hI.devEn en' hl).enAck
@@ -375,7 +412,9 @@ theorem writeEnable_inv {c : Client} {d : Device} (hI : Inv c d) (o : Outcome) :
 
 theorem writeDiv_inv {c : Client} {d : Device} (hI : Inv c d) (o : Outcome) :
     Inv (writeDiv c d o).1 (writeDiv c d o).2.1 := by
-  obtain ⟨f, dv', -, hl, -, heq⟩ := writeDiv_char hI o
+  by_cases hn : c.n = 0
+  · rw [writeDiv_zero hI hn o]; exact hI
+  obtain ⟨f, dv', -, hl, -, heq⟩ := writeDiv_char hI hn o
   rw [heq]; dsimp only
   split <;> split
   · exact (hI.devDiv dv' hl).divAck
@@ -383,16 +422,17 @@ theorem writeDiv_inv {c : Client} {d : Device} (hI : Inv c d) (o : Outcome) :
   · exact (hI.devDiv dv' hl).divFail
   · exact hI.divFail
 
-/-- under `Inv` a request never fails locally and emits exactly one frame with the right id -/
-theorem writeEnable_out {c : Client} {d : Device} (hI : Inv c d) (o : Outcome) :
+/-- under `Inv`, with at least one channel, a request never fails locally and emits exactly one frame
+    with the right id (with zero channels it fails locally: `writeEnable_zero`) -/
+theorem writeEnable_out {c : Client} {d : Device} (hI : Inv c d) (hn : c.n ≠ 0) (o : Outcome) :
     (writeEnable c d o).2.2.err = none ∧ ∀ f ∈ (writeEnable c d o).2.2.sent, f.getD 3 0 = 6 := by
-  obtain ⟨f, en', h6, -, -, heq⟩ := writeEnable_char hI o
+  obtain ⟨f, en', h6, -, -, heq⟩ := writeEnable_char hI hn o
   rw [heq]
   exact ⟨rfl, fun g hg => (List.mem_singleton.mp hg) ▸ h6⟩
 
-theorem writeDiv_out {c : Client} {d : Device} (hI : Inv c d) (o : Outcome) :
+theorem writeDiv_out {c : Client} {d : Device} (hI : Inv c d) (hn : c.n ≠ 0) (o : Outcome) :
     (writeDiv c d o).2.2.err = none ∧ ∀ f ∈ (writeDiv c d o).2.2.sent, f.getD 3 0 = 7 := by
-  obtain ⟨f, dv', h7, -, -, heq⟩ := writeDiv_char hI o
+  obtain ⟨f, dv', h7, -, -, heq⟩ := writeDiv_char hI hn o
   rw [heq]
   exact ⟨rfl, fun g hg => (List.mem_singleton.mp hg) ▸ h7⟩
 
@@ -400,7 +440,9 @@ theorem writeDiv_out {c : Client} {d : Device} (hI : Inv c d) (o : Outcome) :
 theorem writeEnable_doubt {c : Client} {d : Device} (hI : Inv c d) (hD : DoubtEn c d) (o : Outcome)
     (hg : c.ackSupported = true ∨ o = .ack) :
     DoubtEn (writeEnable c d o).1 (writeEnable c d o).2.1 := by
-  obtain ⟨f, en', -, -, hen, heq⟩ := writeEnable_char hI o
+  by_cases hn : c.n = 0
+  · rw [writeEnable_zero hI hn o]; exact hD
+  obtain ⟨f, en', -, -, hen, heq⟩ := writeEnable_char hI hn o
   rw [heq]
   by_cases ho : o = .ack
   · subst ho
@@ -415,7 +457,9 @@ theorem writeEnable_doubt {c : Client} {d : Device} (hI : Inv c d) (hD : DoubtEn
 theorem writeDiv_doubt {c : Client} {d : Device} (hI : Inv c d) (hD : DoubtDiv c d) (o : Outcome)
     (hg : c.ackSupported = true ∨ o = .ack) :
     DoubtDiv (writeDiv c d o).1 (writeDiv c d o).2.1 := by
-  obtain ⟨f, dv', -, -, hdv, heq⟩ := writeDiv_char hI o
+  by_cases hn : c.n = 0
+  · rw [writeDiv_zero hI hn o]; exact hD
+  obtain ⟨f, dv', -, -, hdv, heq⟩ := writeDiv_char hI hn o
   rw [heq]
   by_cases ho : o = .ack
   · subst ho
@@ -428,52 +472,60 @@ theorem writeDiv_doubt {c : Client} {d : Device} (hI : Inv c d) (hD : DoubtDiv c
     exact absurd h (by simp [divFail])
 
 /-- an acknowledged request brings device and client to the requested state -/
-theorem writeEnable_ack {c : Client} {d : Device} (hI : Inv c d) (hD : DoubtEn c d) :
+theorem writeEnable_ack {c : Client} {d : Device} (hI : Inv c d) (hn : c.n ≠ 0) (hD : DoubtEn c d) :
     (writeEnable c d .ack).1 = enAck c ∧ (writeEnable c d .ack).2.1 = { d with en := c.enNew } := by
-  obtain ⟨f, en', -, -, hen, heq⟩ := writeEnable_char hI .ack
+  obtain ⟨f, en', -, -, hen, heq⟩ := writeEnable_char hI hn .ack
   rw [heq, ackSeen_ack, hen hD]
   exact ⟨rfl, rfl⟩
 
-theorem writeDiv_ack {c : Client} {d : Device} (hI : Inv c d) (hD : DoubtDiv c d) :
+theorem writeDiv_ack {c : Client} {d : Device} (hI : Inv c d) (hn : c.n ≠ 0) (hD : DoubtDiv c d) :
     (writeDiv c d .ack).1 = divAck c ∧ (writeDiv c d .ack).2.1 = { d with div := c.divNew } := by
-  obtain ⟨f, dv', -, -, hdv, heq⟩ := writeDiv_char hI .ack
+  obtain ⟨f, dv', -, -, hdv, heq⟩ := writeDiv_char hI hn .ack
   rw [heq, ackSeen_ack, hdv hD]
   exact ⟨rfl, rfl⟩
 
 /-! ### `channelsWrite` -/
 
-theorem channelsWrite_nodiv (c : Client) (d : Device) (oDiv oEn : Outcome) (h : c.divSupported = false) :
+/-- a device without channels: the write is a no-op (`chmax == 0`) -/
+theorem channelsWrite_zero (c : Client) (d : Device) (oDiv oEn : Outcome) (h0 : c.n = 0) :
+    channelsWrite c d oDiv oEn = (c, d, {}) := by
+  unfold channelsWrite; rw [if_pos h0]
+
+theorem channelsWrite_nodiv (c : Client) (d : Device) (oDiv oEn : Outcome) (hn : c.n ≠ 0)
+    (h : c.divSupported = false) :
     channelsWrite c d oDiv oEn = writeEnable c d oEn := by
-  unfold channelsWrite; rw [h]; rfl
+  unfold channelsWrite; rw [if_neg hn, h]; rfl
 
-theorem channelsWrite_div_err (c : Client) (d : Device) (oDiv oEn : Outcome) (h : c.divSupported = true)
-    (e : Err) (he : (writeDiv c d oDiv).2.2.err = some e) :
+theorem channelsWrite_div_err (c : Client) (d : Device) (oDiv oEn : Outcome) (hn : c.n ≠ 0)
+    (h : c.divSupported = true) (e : Err) (he : (writeDiv c d oDiv).2.2.err = some e) :
     channelsWrite c d oDiv oEn = writeDiv c d oDiv := by
-  unfold channelsWrite; rw [h]; dsimp only; rw [he]; rfl
+  unfold channelsWrite; rw [if_neg hn, h]; dsimp only; rw [he]; rfl
 
-theorem channelsWrite_div_ok (c : Client) (d : Device) (oDiv oEn : Outcome) (h : c.divSupported = true)
-    (he : (writeDiv c d oDiv).2.2.err = none) :
+theorem channelsWrite_div_ok (c : Client) (d : Device) (oDiv oEn : Outcome) (hn : c.n ≠ 0)
+    (h : c.divSupported = true) (he : (writeDiv c d oDiv).2.2.err = none) :
     channelsWrite c d oDiv oEn =
       ((writeEnable (writeDiv c d oDiv).1 (writeDiv c d oDiv).2.1 oEn).1,
        (writeEnable (writeDiv c d oDiv).1 (writeDiv c d oDiv).2.1 oEn).2.1,
        { sent := (writeDiv c d oDiv).2.2.sent ++ (writeEnable (writeDiv c d oDiv).1 (writeDiv c d oDiv).2.1 oEn).2.2.sent,
          time := (writeDiv c d oDiv).2.2.time + (writeEnable (writeDiv c d oDiv).1 (writeDiv c d oDiv).2.1 oEn).2.2.time,
          err := (writeEnable (writeDiv c d oDiv).1 (writeDiv c d oDiv).2.1 oEn).2.2.err }) := by
-  unfold channelsWrite; rw [h]; dsimp only; rw [he]; rfl
+  unfold channelsWrite; rw [if_neg hn, h]; dsimp only; rw [he]; rfl
 
 theorem channelsWrite_time (c : Client) (d : Device) (oDiv oEn : Outcome) :
     (channelsWrite c d oDiv oEn).2.2.time ≤ 20 := by
+  by_cases hn : c.n = 0
+  · rw [channelsWrite_zero c d oDiv oEn hn]; exact Nat.zero_le _
   cases h : c.divSupported with
   | false =>
-    rw [channelsWrite_nodiv c d oDiv oEn h]
+    rw [channelsWrite_nodiv c d oDiv oEn hn h]
     exact Nat.le_trans (writeEnable_time c d oEn) (by decide)
   | true =>
     cases he : (writeDiv c d oDiv).2.2.err with
     | some e =>
-      rw [channelsWrite_div_err c d oDiv oEn h e he]
+      rw [channelsWrite_div_err c d oDiv oEn hn h e he]
       exact Nat.le_trans (writeDiv_time c d oDiv) (by decide)
     | none =>
-      rw [channelsWrite_div_ok c d oDiv oEn h he]
+      rw [channelsWrite_div_ok c d oDiv oEn hn h he]
       have h1 := writeDiv_time c d oDiv
       have h2 := writeEnable_time (writeDiv c d oDiv).1 (writeDiv c d oDiv).2.1 oEn
       show _ + _ ≤ 20
@@ -482,37 +534,41 @@ theorem channelsWrite_time (c : Client) (d : Device) (oDiv oEn : Outcome) :
 theorem channelsWrite_failed_en (c : Client) (d : Device) (oDiv oEn : Outcome) (ha : c.ackSupported = true)
     (hf : oEn ≠ .ack) :
     (channelsWrite c d oDiv oEn).1.enNow = c.enNow ∧ (channelsWrite c d oDiv oEn).1.copyEn = c.copyEn := by
+  by_cases hn : c.n = 0
+  · rw [channelsWrite_zero c d oDiv oEn hn]; exact ⟨rfl, rfl⟩
   have hF := writeDiv_frame c d oDiv
   cases h : c.divSupported with
   | false =>
-    rw [channelsWrite_nodiv c d oDiv oEn h]
+    rw [channelsWrite_nodiv c d oDiv oEn hn h]
     exact writeEnable_failed c d oEn ha hf
   | true =>
     cases he : (writeDiv c d oDiv).2.2.err with
     | some e =>
-      rw [channelsWrite_div_err c d oDiv oEn h e he]
+      rw [channelsWrite_div_err c d oDiv oEn hn h e he]
       exact ⟨hF.enNow, hF.copyEn⟩
     | none =>
-      rw [channelsWrite_div_ok c d oDiv oEn h he]
+      rw [channelsWrite_div_ok c d oDiv oEn hn h he]
       have h2 := writeEnable_failed (writeDiv c d oDiv).1 (writeDiv c d oDiv).2.1 oEn (hF.ackS.trans ha) hf
       exact ⟨h2.1.trans hF.enNow, h2.2.trans hF.copyEn⟩
 
 theorem channelsWrite_failed_div (c : Client) (d : Device) (oDiv oEn : Outcome) (ha : c.ackSupported = true)
     (hf : oDiv ≠ .ack) :
     (channelsWrite c d oDiv oEn).1.divNow = c.divNow ∧ (channelsWrite c d oDiv oEn).1.copyDiv = c.copyDiv := by
+  by_cases hn : c.n = 0
+  · rw [channelsWrite_zero c d oDiv oEn hn]; exact ⟨rfl, rfl⟩
   cases h : c.divSupported with
   | false =>
-    rw [channelsWrite_nodiv c d oDiv oEn h]
+    rw [channelsWrite_nodiv c d oDiv oEn hn h]
     have hF := writeEnable_frame c d oEn
     exact ⟨hF.divNow, hF.copyDiv⟩
   | true =>
     have h1 := writeDiv_failed c d oDiv ha hf
     cases he : (writeDiv c d oDiv).2.2.err with
     | some e =>
-      rw [channelsWrite_div_err c d oDiv oEn h e he]
+      rw [channelsWrite_div_err c d oDiv oEn hn h e he]
       exact h1
     | none =>
-      rw [channelsWrite_div_ok c d oDiv oEn h he]
+      rw [channelsWrite_div_ok c d oDiv oEn hn h he]
       have hF := writeEnable_frame (writeDiv c d oDiv).1 (writeDiv c d oDiv).2.1 oEn
       exact ⟨hF.divNow.trans h1.1, hF.copyDiv.trans h1.2⟩
 
@@ -521,29 +577,45 @@ theorem channelsWrite_fixed (c : Client) (d : Device) (oDiv oEn : Outcome) :
     (channelsWrite c d oDiv oEn).1.divSupported = c.divSupported ∧
     (channelsWrite c d oDiv oEn).1.ackSupported = c.ackSupported ∧
     (c.divSupported = false → (channelsWrite c d oDiv oEn).2.1.div = d.div) := by
+  by_cases hn : c.n = 0
+  · rw [channelsWrite_zero c d oDiv oEn hn]; exact ⟨rfl, rfl, fun _ => rfl⟩
   have hF := writeDiv_frame c d oDiv
   cases h : c.divSupported with
   | false =>
-    rw [channelsWrite_nodiv c d oDiv oEn h]
+    rw [channelsWrite_nodiv c d oDiv oEn hn h]
     have hE := writeEnable_frame c d oEn
     exact ⟨hE.divS.trans h, hE.ackS, fun _ => hE.div⟩
   | true =>
     cases he : (writeDiv c d oDiv).2.2.err with
     | some e =>
-      rw [channelsWrite_div_err c d oDiv oEn h e he]
+      rw [channelsWrite_div_err c d oDiv oEn hn h e he]
       exact ⟨hF.divS.trans h, hF.ackS, fun x => nomatch x⟩
     | none =>
-      rw [channelsWrite_div_ok c d oDiv oEn h he]
+      rw [channelsWrite_div_ok c d oDiv oEn hn h he]
       have hE := writeEnable_frame (writeDiv c d oDiv).1 (writeDiv c d oDiv).2.1 oEn
       exact ⟨(hE.divS.trans hF.divS).trans h, hE.ackS.trans hF.ackS, fun x => nomatch x⟩
 
 theorem channelsWrite_inv {c : Client} {d : Device} (hI : Inv c d) (oDiv oEn : Outcome) :
     Inv (channelsWrite c d oDiv oEn).1 (channelsWrite c d oDiv oEn).2.1 := by
+  by_cases hn : c.n = 0
+  · rw [channelsWrite_zero c d oDiv oEn hn]; exact hI
   cases h : c.divSupported with
-  | false => rw [channelsWrite_nodiv c d oDiv oEn h]; exact writeEnable_inv hI oEn
+  | false => rw [channelsWrite_nodiv c d oDiv oEn hn h]; exact writeEnable_inv hI oEn
   | true =>
-    rw [channelsWrite_div_ok c d oDiv oEn h (writeDiv_out hI oDiv).1]
+    rw [channelsWrite_div_ok c d oDiv oEn hn h (writeDiv_out hI hn oDiv).1]
     exact writeEnable_inv (writeDiv_inv hI oDiv) oEn
+
+/-- under `Inv` a write never fails locally (with zero channels it does nothing) -/
+theorem channelsWrite_noerr {c : Client} {d : Device} (hI : Inv c d) (oDiv oEn : Outcome) :
+    (channelsWrite c d oDiv oEn).2.2.err = none := by
+  by_cases hn : c.n = 0
+  · rw [channelsWrite_zero c d oDiv oEn hn]
+  cases h : c.divSupported with
+  | false => rw [channelsWrite_nodiv c d oDiv oEn hn h]; exact (writeEnable_out hI hn oEn).1
+  | true =>
+    rw [channelsWrite_div_ok c d oDiv oEn hn h (writeDiv_out hI hn oDiv).1]
+    have hn1 : (writeDiv c d oDiv).1.n ≠ 0 := by rw [(writeDiv_frame c d oDiv).n]; exact hn
+    exact (writeEnable_out (writeDiv_inv hI oDiv) hn1 oEn).1
 
 theorem DoubtEn.of_divFrame {c c' : Client} {d d' : Device} (hF : DivFrame c c' d d') (h : DoubtEn c d) :
     DoubtEn c' d' := by
@@ -557,12 +629,14 @@ theorem channelsWrite_doubt {c : Client} {d : Device} (hI : Inv c d) (hE : Doubt
     (oDiv oEn : Outcome) (hg : c.ackSupported = true ∨ (oDiv = .ack ∧ oEn = .ack)) :
     DoubtEn (channelsWrite c d oDiv oEn).1 (channelsWrite c d oDiv oEn).2.1 ∧
     DoubtDiv (channelsWrite c d oDiv oEn).1 (channelsWrite c d oDiv oEn).2.1 := by
+  by_cases hn : c.n = 0
+  · rw [channelsWrite_zero c d oDiv oEn hn]; exact ⟨hE, hD⟩
   cases h : c.divSupported with
   | false =>
-    rw [channelsWrite_nodiv c d oDiv oEn h]
+    rw [channelsWrite_nodiv c d oDiv oEn hn h]
     exact ⟨writeEnable_doubt hI hE oEn (hg.imp id And.right), hD.of_enFrame (writeEnable_frame c d oEn)⟩
   | true =>
-    rw [channelsWrite_div_ok c d oDiv oEn h (writeDiv_out hI oDiv).1]
+    rw [channelsWrite_div_ok c d oDiv oEn hn h (writeDiv_out hI hn oDiv).1]
     have hF := writeDiv_frame c d oDiv
     have hI1 := writeDiv_inv hI oDiv
     have hD1 := writeDiv_doubt hI hD oDiv (hg.imp id And.left)
@@ -573,24 +647,28 @@ theorem channelsWrite_doubt {c : Client} {d : Device} (hI : Inv c d) (hE : Doubt
 /-- without divider support only enable frames (id 6) are emitted -/
 theorem channelsWrite_sent {c : Client} {d : Device} (hI : Inv c d) (oDiv oEn : Outcome)
     (h : c.divSupported = false) : ∀ f ∈ (channelsWrite c d oDiv oEn).2.2.sent, f.getD 3 0 = 6 := by
-  rw [channelsWrite_nodiv c d oDiv oEn h]; exact (writeEnable_out hI oEn).2
+  by_cases hn : c.n = 0
+  · rw [channelsWrite_zero c d oDiv oEn hn]; exact fun f hf => nomatch hf
+  rw [channelsWrite_nodiv c d oDiv oEn hn h]; exact (writeEnable_out hI hn oEn).2
 
-/-- an acknowledged write: explicit resulting state -/
-theorem channelsWrite_ack {c : Client} {d : Device} (hI : Inv c d) (hE : DoubtEn c d) (hD : DoubtDiv c d) :
+/-- an acknowledged write (device with at least one channel): explicit resulting state -/
+theorem channelsWrite_ack {c : Client} {d : Device} (hI : Inv c d) (hn : c.n ≠ 0) (hE : DoubtEn c d)
+    (hD : DoubtDiv c d) :
     (channelsWrite c d .ack .ack).1 = (if c.divSupported then enAck (divAck c) else enAck c) ∧
     (channelsWrite c d .ack .ack).2.1 =
       (if c.divSupported then { en := c.enNew, div := c.divNew } else { d with en := c.enNew }) := by
   cases h : c.divSupported with
   | false =>
-    rw [channelsWrite_nodiv c d _ _ h]
-    exact writeEnable_ack hI hE
+    rw [channelsWrite_nodiv c d _ _ hn h]
+    exact writeEnable_ack hI hn hE
   | true =>
-    rw [channelsWrite_div_ok c d _ _ h (writeDiv_out hI .ack).1]
+    rw [channelsWrite_div_ok c d _ _ hn h (writeDiv_out hI hn .ack).1]
     have hF := writeDiv_frame c d .ack
     have hI1 := writeDiv_inv hI .ack
     have hE1 := hE.of_divFrame hF
-    have h2 := writeEnable_ack hI1 hE1
-    have h1 := writeDiv_ack hI hD
+    have hn1 : (writeDiv c d .ack).1.n ≠ 0 := by rw [hF.n]; exact hn
+    have h2 := writeEnable_ack hI1 hn1 hE1
+    have h1 := writeDiv_ack hI hn hD
     dsimp only
     rw [h2.1, h2.2, h1.1, h1.2]
     exact ⟨rfl, rfl⟩
@@ -645,7 +723,7 @@ theorem step_inv {c : Client} {d : Device} (hI : Inv c d) (op : Op) :
   by_cases h : ∀ a b, op ≠ .write a b
   · obtain ⟨e', v', h1, h2, -, hl1, hl2, hr⟩ := step_setter c d op h
     rw [h1, h2]
-    exact ⟨hI.n1, hI.n255, hI.lEnNow, hl1.trans hI.lEnNew, hI.lDivNow, hl2.trans hI.lDivNew, hI.lDevEn,
+    exact ⟨hI.n255, hI.lEnNow, hl1.trans hI.lEnNew, hI.lDivNow, hl2.trans hI.lDivNew, hI.lDevEn,
       hI.lDevDiv, hr hI.rDivNew, hI.cpEn, hI.cpDiv⟩
   · cases op with
     | write a b => exact channelsWrite_inv hI a b
@@ -685,7 +763,9 @@ theorem step_sync {c : Client} {d : Device} (hI : Inv c d) (hE : DoubtEn c d) (h
     | write a b =>
       obtain ⟨rfl, rfl⟩ := ha
       show (channelsWrite c d .ack .ack).1.enResync = false ∧ (channelsWrite c d .ack .ack).1.divResync = false
-      rw [(channelsWrite_ack hI hE hD).1]
+      by_cases hn : c.n = 0
+      · rw [channelsWrite_zero c d .ack .ack hn]; exact hs
+      rw [(channelsWrite_ack hI hn hE hD).1]
       split
       · exact ⟨rfl, rfl⟩
       · exact ⟨rfl, hs.2⟩
@@ -738,12 +818,12 @@ theorem run_induct (P : Client → Device → Prop) (Q : StepOut → Prop) (ops 
     · exact h1.2
     · exact h2.2 o ho
 
-/-- a device the client can be connected to: 1..255 channels, 8-bit dividers -/
+/-- a device the client can be connected to: 0..255 channels, 8-bit dividers -/
 def WF (d : Device) : Prop :=
-  1 ≤ d.en.length ∧ d.en.length ≤ 255 ∧ d.div.length = d.en.length ∧ ∀ v ∈ d.div, 0 ≤ v ∧ v ≤ 255
+  d.en.length ≤ 255 ∧ d.div.length = d.en.length ∧ ∀ v ∈ d.div, 0 ≤ v ∧ v ≤ 255
 
 theorem init_inv (d0 : Device) (flags : Nat) (hd : WF d0) : Inv (Client.init d0 flags) d0 :=
-  ⟨hd.1, hd.2.1, rfl, rfl, hd.2.2.1, hd.2.2.1, rfl, hd.2.2.1, hd.2.2.2, rfl, rfl⟩
+  ⟨hd.1, rfl, rfl, hd.2.1, hd.2.1, rfl, hd.2.1, hd.2.2, rfl, rfl⟩
 
 /-- the invariants of a history in which every request is acknowledged (C07) -/
 structure AckState (ds : Bool) (dv0 : List Int) (c : Client) (d : Device) : Prop where
@@ -813,7 +893,13 @@ theorem write_ack_result {c : Client} {d : Device} (hI : Inv c d) (hE : DoubtEn 
       (channelsWrite c d .ack .ack).1.divNow = (channelsWrite c d .ack .ack).1.divNew ∧
       (channelsWrite c d .ack .ack).1.copyDiv = (channelsWrite c d .ack .ack).1.divNew) ∧
     (c.divSupported = false → (channelsWrite c d .ack .ack).2.1.div = d.div) := by
-  obtain ⟨h1, h2⟩ := channelsWrite_ack hI hE hD
+  by_cases hn : c.n = 0
+  · obtain ⟨e1, e2, e3, e4, e5, e6, e7, e8⟩ := hI.nil hn
+    rw [channelsWrite_zero c d .ack .ack hn]
+    dsimp only
+    rw [e1, e2, e3, e4, e5, e6, e7, e8]
+    exact ⟨rfl, rfl, rfl, fun _ => ⟨rfl, rfl, rfl⟩, fun _ => rfl⟩
+  obtain ⟨h1, h2⟩ := channelsWrite_ack hI hn hE hD
   rw [h1, h2]
   cases c.divSupported
   · exact ⟨rfl, rfl, rfl, fun x => Bool.noConfusion x, fun _ => rfl⟩
@@ -832,7 +918,9 @@ theorem write_idem {c : Client} {d : Device} (hI : Inv c d) (hE : DoubtEn c d) (
     (h1 : c.enResync = false) (h2 : d.en = c.enNew) (h3 : c.enNow = c.enNew)
     (h4 : c.divSupported = true → c.divResync = false ∧ d.div = c.divNew ∧ c.divNow = c.divNew) :
     (channelsWrite c d .ack .ack).2.1 = d ∧ (channelsWrite c d .ack .ack).1 = c := by
-  obtain ⟨e1, e2⟩ := channelsWrite_ack hI hE hD
+  by_cases hn : c.n = 0
+  · rw [channelsWrite_zero c d .ack .ack hn]; exact ⟨rfl, rfl⟩
+  obtain ⟨e1, e2⟩ := channelsWrite_ack hI hn hE hD
   rw [e1, e2]
   have hc := enAck_eq_self c h1 h3 (hI.cpEn.trans h3)
   cases hs : c.divSupported with
